@@ -845,6 +845,19 @@ func (e *FnEnc) encAppend(cc *ssa.CallCommon, pos token.Pos) *Val {
 			frA = e.rangeCopied(inner, f1, s.L[2], tn, tailInner, tail.L[1])
 		}
 		e.setHeap(name, srt, site(inPlace, "(store "+a+" "+s.L[0]+" "+ip+")", "(store "+a+" "+fr+" "+frA+")"))
+		if !tailIsString {
+			// consequences of the two cases above, stated over the row-view terms that contract clauses use
+			// (so that quantified facts about the old slice are instantiated for reads of the result):
+			// result[k] == old[k] for k < len(old), result[len(old)+j] == tail[j]
+			ix := e.sorter.idxSort()
+			nwA := e.heapArr(name, srt)
+			newRead := e.rowRead("(select "+nwA+" "+base+")", inner, off, "k")
+			oldRead := e.rowRead(oldInner, inner, s.L[1], "k")
+			tailRead := e.rowRead("(select "+a+" "+tail.L[0]+")", inner, tail.L[1], e.idxSub("k", s.L[2]))
+			e.assume(fmt.Sprintf("(forall ((k %s)) (! (and (=> %s (= %s %s)) (=> %s (= %s %s))) :pattern (%s)))", ix,
+				sand(e.idxLe(e.idxConst(0), "k"), e.idxLt("k", s.L[2])), newRead, oldRead,
+				sand(e.idxLe(s.L[2], "k"), e.idxLt("k", newLen)), newRead, tailRead, newRead))
+		}
 	}
 	return &res
 }
